@@ -141,7 +141,18 @@ func genC20(e *emitter, tier string, seed int64) {
 		noInput := rng.Intn(8) == 0
 		dir := filepath.Join(work, fmt.Sprintf("ws%d", i))
 		os.MkdirAll(filepath.Join(dir, "sub"), 0o755)
+		// the workspace's files may be symbolic links to the scripts (mounted configuration directories)
+		linked := !single && rng.Intn(4) == 0
+		store := filepath.Join(work, fmt.Sprintf("store%d", i))
+		if linked {
+			os.MkdirAll(store, 0o755)
+		}
 		for n, src := range set {
+			if linked {
+				os.WriteFile(filepath.Join(store, n), []byte(src), 0o644)
+				os.Symlink(filepath.Join(store, n), filepath.Join(dir, n))
+				continue
+			}
 			os.WriteFile(filepath.Join(dir, n), []byte(src), 0o644)
 		}
 		inPath := filepath.Join(dir, "sub", "input.dat")
@@ -193,7 +204,7 @@ func genC20(e *emitter, tier string, seed int64) {
 		sort.Strings(names)
 		e.stat("cli:" + map[bool]string{true: "single", false: "workspace"}[single] + ":" + outType)
 		e.emit(map[string]any{"k": "cli", "gen": "cli", "key": fmt.Sprintf("%v | %s %q | single=%v noinput=%v out=%s", names, in.typ, in.data, single, noInput, outType),
-			"files": set, "input": in.data, "type": in.typ, "out_type": outType, "single": single, "noinput": noInput,
+			"files": set, "linked": linked, "input": in.data, "type": in.typ, "out_type": outType, "single": single, "noinput": noInput,
 			"exit": exit, "crashed": strings.Contains(se.String(), "panic:") || strings.Contains(se.String(), "goroutine "), "stderr_tail": tail(se.String(), 400), "stderr_head": head(se.String(), 900), "printed": printed, "stdout_tail": tail(stdout, 600), "lib": want, "lib_err": werr})
 	}
 }
